@@ -1138,8 +1138,9 @@ class WcParse(Generic[AnyStr]):
                 if self.pathname:
                     raise StopIteration
                 value = c
-            elif c in SET_OPERATORS:
+            elif c in SET_OPERATORS or c == '#':
                 # Escape &, |, and ~ to avoid &&, ||, and ~~
+                # Escape # so a sequence can never spell the internal `(?#)` capture marker
                 value = '\\' + c
             else:
                 # Anything else
